@@ -202,6 +202,12 @@ theorem parse_binds_last (bs : List Bound) (a : Arg) (tail r' : List Tok) (v : V
       .ok (bs.map (·.val) ++ [v], srcs ++ [s], r') ∧ srcs.length = bs.length :=
   PlasVerif.Proofs.Args.parse_binds_last bs a tail r' v s hb hw hlast
 
+/-- a string-typed argument is bound to its text whatever its shape: exactly one brace group (`\\foo{{abc}}`, `[{htb}]`),
+    groups next to text, blanks at the ends — braces dropped, ends stripped -/
+example : textOf [.bg false, .ch 97, .ch 98, .ch 99, .eg false] = [97, 98, 99] ∧
+    textOf [.sp, .ch 120, .bg false, .ch 121, .eg false, .ch 122, .sp] = [120, 121, 122] ∧
+    textOf [.bg false, .bg false, .eg false, .eg false] = [] := by decide
+
 /-- the `CastsTo` instances that feed `parse_binds` -/
 theorem castsTo_instances :
     (∀ (a : Arg) toks, a.ty = .none ∨ a.ty = .nox → CastsTo a toks (.toks toks)) ∧
